@@ -11,6 +11,7 @@ CONSTANTS
   MaxReorgs = 3
   MaxIdx = 2
   MaxFails = 3
+  InitDuties = TRUE
   Weaken = "none"
 INVARIANT AtMostOnce
 INVARIANT AtItsSlot
